@@ -317,7 +317,7 @@ pub fn run(params: &Params) {
           "id": format!("https://cred.example/{step}"),
           "type": ["VerifiableCredential"],
           "issuer": issuer.did,
-          "issuanceDate": identity_core::common::Timestamp::from_unix(clock.now + issuer.skew - 60).unwrap().to_rfc3339(),
+          "issuanceDate": crate::core::time::rfc3339(clock.now + issuer.skew - 60),
           "credentialSubject": {"id": "did:sim:subject", "n": step},
           "credentialStatus": {"id": status_id, "type": "RevocationBitmap2022", "revocationBitmapIndex": index.to_string()}
         });
